@@ -24,6 +24,11 @@ def run(optname, arch="ResNet"):
     key = random.PRNGKey(0)
     if arch == "ResNet":
         model = models.ResNet(D, sig, sig, 2, num_blocks=1, num_conv=1, conv_filters=fb, use_group_norm=True, key=key)
+    elif arch == "GroupAverage":
+        # a symmetrised conventional network: equivariant exactly while its non-array `inference` flag is set -- training must
+        # hand back that flag (every non-array field) as it received it
+        inner = models.ResNet(D, sig, sig, 2, num_blocks=1, num_conv=1, equivariant=False, kernel_size=3, key=key)
+        model = models.GroupAverage(inner, geom.make_all_operators(D), always_average=False, inference=True)
     else:
         model = models.UNet(D, sig, sig, 2, num_downsamples=1, num_conv=1, conv_filters=fb, upsample_filters=up, use_group_norm=False, key=key)
     rng = np.random.default_rng(0)
@@ -47,8 +52,10 @@ def run(optname, arch="ResNet"):
                 return "a zero entry of a filter bank became non-zero", call
             ratios += list((b[k][nz] / a[k][nz]).ravel())
     ratios = np.array(ratios)
-    if np.max(np.abs(ratios - ratios[0])) > 1e-4:
+    if len(ratios) and np.max(np.abs(ratios - ratios[0])) > 1e-4:
         return f"filter banks not rescaled by one common factor: ratios in [{ratios.min():.5f}, {ratios.max():.5f}]", call
+    if arch == "GroupAverage" and (trained.inference is not True or trained.always_average is not False):
+        return f"train() returned the model with changed non-array fields: inference={trained.inference}, always_average={trained.always_average}", call
     # still equivariant
     x1 = {k: np.array(v[0]) for k, v in X.items()}
     for g in geom.make_all_operators(D):
@@ -64,13 +71,13 @@ def run(optname, arch="ResNet"):
 def standin(req):
     tier = req.get("tier", "quick")
     n, fails = 0, []
-    for arch in (["ResNet"] if tier == "quick" else ["ResNet", "UNet"]):
-        for o in ["sgd", "adam", "adamw"]:
+    for arch in (["ResNet", "GroupAverage"] if tier == "quick" else ["ResNet", "UNet", "GroupAverage"]):
+        for o in (["sgd", "adam", "adamw"] if arch != "GroupAverage" else ["adamw"]):
             d, call = run(o, arch)
             n += 1
             if d is not None:
                 fails.append({"name": call, "detail": d, "request": dict(scenario="train", arch=arch, opt=o)})
-    return {"ok": True, "evaluations": n, "failures": fails, "grid": "ResNet (and UNet) x {sgd, adam, adamw+decay}, 2 epochs, filter ratio + equivariance for all g in B_2"}
+    return {"ok": True, "evaluations": n, "failures": fails, "grid": "ResNet (and UNet) x {sgd, adam, adamw+decay}, GroupAverage(inference=True) around a conventional ResNet x adamw; 2 epochs, filter ratio + non-array fields + equivariance for all g in B_2"}
 
 
 def replay(req):
